@@ -453,6 +453,9 @@ func evaluate(p *Plan, r *Result, tolerateRejectEOF bool) (violation string, exe
 		if pr.Retried {
 			labels = append(labels, "probe-retried:"+pp.Kind)
 		}
+		if pr.Attempts > 1 && (strings.HasPrefix(pp.Kind, "udp-") || pp.Kind == "assoc-socks5") && pp.Kind != "udp-garbage" {
+			labels = append(labels, "udp-resent:"+pp.Kind) // the first datagram of the exchange was not echoed in time
+		}
 		if pp.ExpectEcho && !pr.OK {
 			return fmt.Sprintf("SIG=C18/smoke-no-echo/%s server=%s addr=%s: %s", pp.Kind, pp.Server, pr.Addr, pr.Err), false, labels
 		}
